@@ -21,9 +21,38 @@ TPARSE = "hippolyzer/lib/base/message/template_parser.py"
 # hand-written (unpacker, packer) pairs confirmed by reading to be mutual inverses on the wire domain
 INVERSE_IDIOMS = {
     ("bytes", "_pack_string"): None,                       # variable width
-    ("lambda x: UUID(bytes=bytes(x))", "lambda x: UUID(x).bytes"): 16,
+    ("UUID(bytes=bytes(_))", "UUID(_).bytes"): 16,
     ("socket.inet_ntoa", "socket.inet_aton"): 4,
 }
+
+
+class _RenameArg(ast.NodeTransformer):
+    def __init__(self, name):
+        self.name = name
+
+    def visit_Name(self, node):
+        if node.id == self.name:
+            return ast.copy_location(ast.Name(id="_", ctx=node.ctx), node)
+        return node
+
+
+def callable_norm(repo, mod, node) -> str:
+    """Normal form of a one-argument callable expression: a lambda, or a name bound to a module-level
+    function whose body is a single `return <expr>` (docstring allowed), is reduced to its body with the
+    parameter renamed to `_`; anything else to its normalised source."""
+    import copy
+    if isinstance(node, ast.Lambda) and len(node.args.args) == 1:
+        body = _RenameArg(node.args.args[0].arg).visit(copy.deepcopy(node.body))
+        return norm(body)
+    if isinstance(node, ast.Name):
+        cands = [g for g in repo.funcs.get(node.id, []) if g.module is mod and g.cls is None and g.parent_fn is None]
+        if len(cands) == 1 and len(cands[0].node.args.args) == 1:
+            body = [st for st in cands[0].node.body
+                    if not (isinstance(st, ast.Expr) and isinstance(st.value, ast.Constant))]
+            if len(body) == 1 and isinstance(body[0], ast.Return) and body[0].value is not None:
+                expr = _RenameArg(cands[0].node.args.args[0].arg).visit(copy.deepcopy(body[0].value))
+                return norm(expr)
+    return norm(node)
 
 
 def msgtype_tables(ctx):
@@ -143,7 +172,7 @@ def r1(ctx):
                         ctx.ob("C01.R1", f"SPECS[{m}] format arity matches {ci.name}", npar == n_el, where,
                                f"{ci.name} has {npar} components, format {fmt!r} packs {n_el}")
         elif isinstance(v, ast.Tuple) and len(v.elts) == 2:
-            key = (norm(v.elts[0]), norm(v.elts[1]))
+            key = (callable_norm(repo, pmod, v.elts[0]), callable_norm(repo, pmod, v.elts[1]))
             if key not in INVERSE_IDIOMS:
                 raise AnalysisError(f"SPECS[{m}] pair {key} is not in the confirmed inverse-idiom table "
                                     f"(read it, then extend C01.R1.INVERSE_IDIOMS)")
@@ -347,33 +376,45 @@ def r4(ctx):
     sf = repo.fn("UDPMessageSerializer.serialize")
     hf = repo.fn("UDPMessageDeserializer._parse_message_header")
     bf = [f for f in class_methods_reachable(repo, repo.fn("UDPMessageDeserializer.parse_message_body"), depth=2)]
-    # writer/reader construction endianness
-    def ctor_endians(fns, cname):
+    # writer/reader construction endianness (helpers extracted from serialize are followed)
+    sfs = class_methods_reachable(repo, sf, depth=3)
+
+    def ctors(fns, cname):
+        """(function, target variable, constructor call, endianness literal)"""
         out = []
         for f in fns:
-            for c in find_calls(f.node, cname):
-                if c.args and isinstance(c.args[0], ast.Constant):
-                    out.append((f, c, c.args[0].value))
+            for st in stores(f.node, into_defs=False):
+                v = st.value
+                if st.kind == "assign" and isinstance(v, ast.Call) and call_attr(v) == cname and v.args \
+                        and isinstance(v.args[0], ast.Constant):
+                    out.append((f, st.path, v, v.args[0].value))
         return out
-    w_end = ctor_endians([sf], "BufferWriter")
-    r_hdr = ctor_endians([hf], "BufferReader")
-    r_body = ctor_endians(bf, "BufferReader")
-    ctx.ob("C01.R4", "serializer builds header writer and body writer", len(w_end) == 2, sf.where, f"{[e for _, _, e in w_end]}")
-    if len(w_end) == 2:
-        w_end.sort(key=lambda t: t[1].lineno)
-        ctx.ob("C01.R4", "header endianness equal", all(e == w_end[0][2] for _, _, e in r_hdr) and bool(r_hdr),
-               hf.where, f"writer {w_end[0][2]!r} reader {[e for _, _, e in r_hdr]}")
-        ctx.ob("C01.R4", "body endianness equal", all(e == w_end[1][2] for _, _, e in r_body) and bool(r_body),
-               DES, f"writer {w_end[1][2]!r} reader {[e for _, _, e in r_body]}")
+    w_ctors = ctors(sfs, "BufferWriter")
+    # header writer: the one (in serialize) that receives the flags byte; body writer: the one handed to _serialize_block
+    hdr_w = [t for t in w_ctors if t[0] is sf and any(ap(c.func) == f"{t[1]}.write" and len(c.args) > 1 and
+                                                      "send_flags" in src(c.args[1]) for c in calls(sf.node))]
+    body_w = [t for t in w_ctors if any(call_attr(c) == "_serialize_block" and c.args and ap(c.args[0]) == t[1]
+                                        for c in calls(t[0].node))]
+    r_hdr = ctors([hf], "BufferReader")
+    r_body = ctors(bf, "BufferReader")
+    ctx.ob("C01.R4", "serializer builds one header writer and one body writer", len(hdr_w) == 1 and len(body_w) == 1,
+           sf.where, f"header {[t[3] for t in hdr_w]} body {[t[3] for t in body_w]}")
+    if len(hdr_w) == 1 and len(body_w) == 1:
+        ctx.ob("C01.R4", "header endianness equal", all(e == hdr_w[0][3] for _, _, _, e in r_hdr) and bool(r_hdr),
+               hf.where, f"writer {hdr_w[0][3]!r} reader {[e for _, _, _, e in r_hdr]}")
+        ctx.ob("C01.R4", "body endianness equal", all(e == body_w[0][3] for _, _, _, e in r_body) and bool(r_body),
+               DES, f"writer {body_w[0][3]!r} reader {[e for _, _, _, e in r_body]}")
+    w_recv = hdr_w[0][1] if hdr_w else "writer"
+    r_recvs = {t[1] for t in r_hdr} or {"reader"}
 
-    def seq(f, opname, recv):
+    def seq(f, opname, recvs):
         out = []
         for c in sorted(find_calls(f.node, opname, into_defs=False), key=lambda c: (c.lineno, c.col_offset)):
-            if ap(c.func) == f"{recv}.{opname}" and c.args and spec_symbol(c.args[0]):
+            if isinstance(c.func, ast.Attribute) and ap(c.func.value) in recvs and c.args and spec_symbol(c.args[0]):
                 out.append(c)
         return out
-    w_seq = seq(sf, "write", "writer")
-    r_seq = seq(hf, "read", "reader")
+    w_seq = seq(sf, "write", {w_recv})
+    r_seq = seq(hf, "read", r_recvs)
     # header part of writer: writes before the body; trailer: writes mentioning acks
     def mentions_acks(c, f):
         return has_path_fact(c, "has_acks", True, f.node)
@@ -400,9 +441,10 @@ def r4(ctx):
         ctx.ob("C01.R4", f"header field {i} is {wr}/{rr}", ok, sf.where,
                f"writer field {wf[i] if i < len(wf) else None}, reader field {rf[i] if i < len(rf) else None}")
     # ack trailer
-    w_elem = [c for c in w_ack if any(isinstance(a, ast.For) for a in _anc(c))]
+    LOOPS = (ast.For, ast.While, ast.ListComp, ast.GeneratorExp, ast.SetComp)
+    w_elem = [c for c in w_ack if any(isinstance(a, LOOPS) for a in _anc(c))]
     w_cnt = [c for c in w_ack if c not in w_elem]
-    r_elem = [c for c in r_ack if any(isinstance(a, ast.For) for a in _anc(c))]
+    r_elem = [c for c in r_ack if any(isinstance(a, LOOPS) for a in _anc(c))]
     r_cnt = [c for c in r_ack if c not in r_elem]
     ctx.ob("C01.R4", "ack trailer shape (one element loop, one count) on both sides",
            len(w_elem) == len(w_cnt) == len(r_elem) == len(r_cnt) == 1, sf.where,
@@ -428,17 +470,36 @@ def r4(ctx):
             v = ConstEval(repo, hf.module).ev(other)
             ctx.ob("C01.R4", "ack field length multiplier == element width", v == width, ctx.w(hf, mnode),
                    f"multiplier {v}, calcsize({fmt}) = {width}")
-        # order reversals
-        rev_w = sum(1 for a in _anc(w_elem[0]) if isinstance(a, ast.For) and isinstance(a.iter, ast.Call)
-                    and ap(a.iter.func) == "reversed")
-        st = enclosing_stmt(r_elem[0])
-        rev_r = 0
-        ins = [c for c in calls(st) if call_attr(c) == "insert"]
-        if ins and isinstance(ins[0].args[0], ast.Constant) and ins[0].args[0].value == 0:
-            rev_r = 1
-        loops_r = [a for a in _anc(r_elem[0]) if isinstance(a, ast.For)]
-        if loops_r and isinstance(loops_r[0].iter, ast.Call) and ap(loops_r[0].iter.func) == "reversed":
-            rev_r += 1
+        # order reversals: reversed(...) / [::-1] / insert(0, ...) touching the ack sequence, on either side
+        def reversals(f, elem_call):
+            n = 0
+            region = []
+            for x in walk(f.node):
+                if isinstance(x, ast.stmt) and (has_path_fact(x, "has_acks", True, f.node) or "acks" in src(x).lower()) \
+                        and not isinstance(x, (ast.If, ast.For, ast.While, ast.With, ast.Try, ast.FunctionDef)):
+                    region.append(x)
+            seen = set()
+            for st in region + [a for a in _anc(elem_call) if isinstance(a, ast.For)]:
+                nodes = [st.iter] if isinstance(st, ast.For) else list(walk(st))
+                if isinstance(st, ast.For):
+                    nodes = list(walk(st.iter))
+                for x in nodes:
+                    if id(x) in seen:
+                        continue
+                    seen.add(id(x))
+                    if isinstance(x, ast.Call) and ap(x.func) == "reversed":
+                        n += 1
+                    elif isinstance(x, ast.Call) and call_attr(x) == "insert" and x.args and \
+                            isinstance(x.args[0], ast.Constant) and x.args[0].value == 0:
+                        n += 1
+                    elif isinstance(x, ast.Call) and call_attr(x) == "reverse" and not x.args:
+                        n += 1
+                    elif isinstance(x, ast.Subscript) and isinstance(x.slice, ast.Slice) and x.slice.step is not None \
+                            and isinstance(x.slice.step, ast.UnaryOp) and isinstance(x.slice.step.op, ast.USub):
+                        n += 1
+            return n
+        rev_w = reversals(sf, w_elem[0])
+        rev_r = reversals(hf, r_elem[0])
         ctx.ob("C01.R4", "ack order reversals are even in total", (rev_w + rev_r) % 2 == 0, ctx.w(sf, w_elem[0]),
                f"writer reverses {rev_w}x, reader {rev_r}x: decoded ack order would be reversed")
         # result stored to msg.acks from the collected list
@@ -453,38 +514,99 @@ def _anc(n):
 def r5(ctx):
     repo = ctx.repo
     ctx.rule("C01.R5", "default fill emits exactly the template's width for every MsgType (finite-domain "
-                       "evaluation of the fill branch over the 20 types)")
+                       "evaluation of the unset-value path of _serialize_var over the 20 types; helpers followed)")
     members, sizes = msgtype_tables(ctx)
     f = repo.fn("UDPMessageSerializer._serialize_var")
-    # the branch executed when the value is unset and fill_missing is on
-    target_if = None
-    for n in walk(f.node):
-        if isinstance(n, ast.If) and "fill_missing" in {ap(e) for e, p in atoms(n.test, True) if p}:
-            target_if = n
-    ctx.require(target_if is not None, "_serialize_var: fill_missing branch not found")
     params = [a.arg for a in f.node.args.args]
     tv = next((p for p in params if "template" in p or "tmpl" in p), None)
     ctx.require(tv is not None, "_serialize_var: template variable parameter not found")
-    var_name = next((p for p in params if p not in ("self", "writer", tv, "fill_missing")), "var_data")
-    ev = ConstEval(repo, f.module)
+    fm = next((p for p in params if "fill" in p), None)
+    ctx.require(fm is not None, "_serialize_var: fill_missing parameter not found")
+    var_name = next((p for p in params if p not in ("self", "cls", "writer", tv, fm)), None)
+    ctx.require(var_name is not None, "_serialize_var: value parameter not found")
+    # the statement handling the unset value: the first `if <value> is None`
+    unset_if = None
+    for st in f.node.body:
+        if isinstance(st, ast.If) and any(isinstance(e, ast.Compare) and ap(e.left) == var_name and pol and
+                                          isinstance(e.ops[0], ast.Is) for e, pol in atoms(st.test, True)):
+            unset_if = st
+            break
+    ctx.require(unset_if is not None, "_serialize_var: `if <value> is None` statement not found")
+    ctx.require(any(fm in {n.id for n in ast.walk(x) if isinstance(n, ast.Name)} for x in ast.walk(unset_if)),
+                "_serialize_var: the unset-value path no longer consults fill_missing")
     type_sizes = sizes
 
-    def hook(base, attr):
-        if isinstance(base, EnumVal) and base.cls == "MsgType" and attr == "size":
-            return type_sizes.get(base.name, Sym("NO_SIZE_ROW"))
-        return None
-    ev.attr_hook = hook
+    class TmplVar:
+        """abstract template variable handed to helpers"""
+
+    def make_ev(mod):
+        ev = ConstEval(repo, mod)
+
+        def hook(base, attr):
+            if isinstance(base, EnumVal) and base.cls == "MsgType" and attr == "size":
+                return type_sizes.get(base.name, Sym("NO_SIZE_ROW"))
+            return None
+        ev.attr_hook = hook
+
+        def binop_hook(op, a, b):
+            if isinstance(op, ast.Mult):
+                for x, y in ((a, b), (b, a)):
+                    if x == b"\x00" and isinstance(y, Sym) and y.text == "TMPL_SIZE":
+                        return Sym("ZEROFILL(TMPL_SIZE)")
+            return None
+        ev.binop_hook = binop_hook
+
+        def call_hook(node, fn, args, kwargs, local):
+            # follow helpers: self.x(...) / cls.x(...) / module-level function
+            target = None
+            if isinstance(node.func, ast.Attribute) and isinstance(node.func.value, ast.Name) and \
+                    node.func.value.id in ("self", "cls") and f.cls is not None:
+                target = repo.lookup_method(f.cls, node.func.attr)
+            elif isinstance(node.func, ast.Name):
+                cands = [g for g in repo.funcs.get(node.func.id, []) if g.module is f.module and g.cls is None
+                         and g.parent_fn is None]
+                target = cands[0] if len(cands) == 1 else None
+            if target is None:
+                return None
+            ps = [a.arg for a in target.node.args.args if a.arg not in ("self", "cls")]
+            env2 = {}
+            for pname, anode, aval in zip(ps, node.args, args):
+                env2[pname] = aval
+                # forward symbolic attribute bindings (template_var.type/.size) to the callee's parameter name
+                src_name = ap(anode)
+                if src_name:
+                    for k, v in list(local.items()):
+                        if isinstance(k, str) and k.startswith(src_name + "."):
+                            env2[pname + k[len(src_name):]] = v
+            for k in node.keywords:
+                if k.arg:
+                    env2[k.arg] = kwargs.get(k.arg)
+                    src_name = ap(k.value)
+                    if src_name:
+                        for kk, v in list(local.items()):
+                            if isinstance(kk, str) and kk.startswith(src_name + "."):
+                                env2[k.arg + kk[len(src_name):]] = v
+            ev2 = make_ev(target.module)
+            out = run_block(ev2, target.node.body, env2)
+            if out.kind == "return":
+                return out.value
+            if out.kind == "raise":
+                return Sym("RAISES")
+            return None
+        ev.call_hook = call_hook
+        return ev
+    ev = make_ev(f.module)
+    where = ctx.w(f, unset_if)
     for m, mv in members.items():
         if m not in type_sizes:
             continue  # reported by C01.R1
-        env = {f"{tv}.type": EnumVal("MsgType", m, mv), f"{tv}.size": Sym("TMPL_SIZE"), "fill_missing": True}
+        env = {var_name: None, f"{tv}.type": EnumVal("MsgType", m, mv), f"{tv}.size": Sym("TMPL_SIZE"), fm: True}
         try:
-            out = run_block(ev, target_if.body, env)
+            out = run_block(ev, [unset_if], env)
         except AnalysisError as e:
             raise AnalysisError(f"C01.R5 for {m}: {e}")
-        where = ctx.w(f, target_if)
         if out.kind == "raise":
-            ctx.ob("C01.R5", f"fill[{m}] produces a value", False, where, "fill branch raises for this type")
+            ctx.ob("C01.R5", f"fill[{m}] produces a value", False, where, "fill path raises for this type")
             continue
         val = env.get(var_name)
         width = None
@@ -496,9 +618,8 @@ def r5(ctx):
             a = val.args[0]
             if isinstance(a, bytes):
                 width = len(a)
-            elif isinstance(a, Sym):
-                # b"\x00" * TMPL_SIZE ?
-                width = _sym_width(f, target_if, env, ev, m)
+            elif isinstance(a, Sym) and a.text == "ZEROFILL(TMPL_SIZE)":
+                width = "TMPL_SIZE"
         exp_fixed = type_sizes[m]
         if m == "MVT_VARIABLE":
             ok = (not raw and width == 0)
@@ -690,9 +811,17 @@ def r7(ctx):
                        glen.where, f"returns {ln}, bytes are {k}+{struct.calcsize('<' + body)}")
     # writer puts freq_num_bytes then extra; reader skips num_len + offset
     sf = repo.fn("UDPMessageSerializer.serialize")
-    wb = [c for c in find_calls(sf.node, "write_bytes", into_defs=False) if ap(c.func) == "body_writer.write_bytes"]
-    order_ok = len(wb) >= 2 and (ap(wb[0].args[0]) or "").endswith(".freq_num_bytes") and (ap(wb[1].args[0]) or "").endswith(".extra")
-    ctx.ob("C01.R7", "body writer emits freq_num_bytes then extra first", order_ok, sf.where)
+    order_ok = False
+    where_w = sf.where
+    for f in class_methods_reachable(repo, sf, depth=3):
+        wbs = sorted(find_calls(f.node, "write_bytes", into_defs=False), key=lambda c: (c.lineno, c.col_offset))
+        for i, c in enumerate(wbs):
+            if c.args and (ap(c.args[0]) or "").endswith(".freq_num_bytes"):
+                recv = ap(c.func.value) if isinstance(c.func, ast.Attribute) else None
+                same = [x for x in wbs if isinstance(x.func, ast.Attribute) and ap(x.func.value) == recv]
+                where_w = ctx.w(f, c)
+                order_ok = len(same) >= 2 and same[0] is c and (ap(same[1].args[0]) or "").endswith(".extra")
+    ctx.ob("C01.R7", "body writer emits freq_num_bytes then extra first", order_ok, where_w)
     bfs = class_methods_reachable(repo, repo.fn("UDPMessageDeserializer.parse_message_body"), depth=2)
     seeks = [(f, c) for f in bfs for c in find_calls(f.node, "seek")]
     oks = any(isinstance(c.args[0], ast.BinOp) and isinstance(c.args[0].op, ast.Add) and
